@@ -32,7 +32,7 @@ CODES = {0: "ok", 1: "circular", 2: "module-not-found", 3: "symbol-not-found", 4
 
 # ------------------------------------------------------------------------------------------ tree text
 def parse_tree(text):
-    t = {"label": "", "entry": None, "files": collections.OrderedDict(), "probes": []}
+    t = {"label": "", "entry": None, "files": collections.OrderedDict(), "probes": [], "links": [], "hints": {}}
     cur = None
     for item in text.split(";"):
         w = item.split()
@@ -55,6 +55,10 @@ def parse_tree(text):
             cur["imports"].append({"form": w[1], "path": path, "extra": extra})
         elif w[0] == "def":
             cur["defs"].append((w[2], w[1] == "pub"))
+        elif w[0] == "link":
+            t["links"].append((w[1].split("/"), w[2].split("/")))
+        elif w[0] == "hint":
+            t["hints"][w[1]] = w[2]
         elif w[0] == "probe":
             t["probes"].append((w[1], ("bare", w[3]) if w[2] == "bare" else ("qual", w[3], w[4])))
     return t
@@ -73,23 +77,79 @@ def pubs(t, f):
     return [n for n, p in t["files"][f]["defs"] if p]
 
 
+def canon(t, comps):
+    """physical path: symlinks replaced left to right (a link is a file's or a directory's path)"""
+    for _ in range(8):
+        for src, tgt in t["links"]:
+            if comps[:len(src)] == src:
+                comps = tgt + comps[len(src):]
+                break
+        else:
+            return comps
+    return comps
+
+
+def lookup_file(t, rootdir, comps):
+    """-> ('found', file) | 'stop' (exists but outside rootdir) | 'missing'"""
+    c = canon(t, comps)
+    f = "/".join(c)
+    if f in t["files"]:
+        return ("found", f) if c[:len(rootdir)] == rootdir else "stop"
+    return "missing"
+
+
 def resolve_in(t, base, path):
-    cand = "/".join(base + path)
-    if cand in t["files"]:
-        return cand
-    cand = "/".join(base + path + ["mod"])
-    if cand in t["files"]:
-        return cand
-    return None
+    r = lookup_file(t, base, base + path)
+    if r == "missing":
+        r = lookup_file(t, base, base + path + ["mod"])
+    return r
+
+
+def is_dir(t, comps):
+    return any(f.split("/")[:len(comps)] == comps and len(f.split("/")) > len(comps) for f in t["files"])
+
+
+def follow(t, base, explicit):
+    """base.join(explicit): '..' is the physical parent, '.' nothing, symlinks followed"""
+    cur = list(base)
+    parts = explicit.split("/")
+    for k, part in enumerate(parts):
+        last = k == len(parts) - 1
+        if part == ".":
+            if last:
+                return None
+        elif part == "..":
+            if last or not cur:
+                return None
+            cur = cur[:-1]
+        else:
+            name = part[:-6] if part.endswith(".aelys") else part
+            cur = canon(t, cur + [name])
+            if not last and not is_dir(t, cur):
+                return None
+    return cur
 
 
 def resolve(t, base, path):
-    """next to the importing file, then next to the entry file"""
-    r = resolve_in(t, base, path)
+    """the manifest's explicit path for this name if that file exists; else next to the importing
+    file, then next to the entry file; always the physical file, which must lie below the
+    directory it was looked up from"""
     root = t["entry"].split("/")[:-1]
-    if r is None and base != root:
+    ex = t["hints"].get(".".join(path))
+    if ex is not None:
+        c = follow(t, base, ex)
+        if c is not None:
+            f = "/".join(c)
+            if f in t["files"]:
+                return f if c[:len(base)] == base else None
+    r = resolve_in(t, base, path)
+    if isinstance(r, tuple):
+        return r[1]
+    if base != root:
         r = resolve_in(t, root, path)
-    return r
+        if isinstance(r, tuple):
+            return r[1]
+    return None
 
 
 def resolve_import(t, importer, imp):
